@@ -1111,3 +1111,31 @@ def t_call(E):
 TASKS.update({
     'batcher.__call__': (t_call, {'C11', 'C04', 'C09'}),
 })
+
+
+def t_lemmas(E):
+    """C10: at most max_concurrent_batches executions of the batch function at once, from the semaphore stub and
+    the scope obligation of _process_batch (pure SMT)."""
+    stubs.install_all(E)
+    E.cur_func = 'batcher.lemmas'
+    E.props_default = frozenset({'C10'})
+
+    def body():
+        mx, permits, running = z3.Ints('max_concurrent_batches permits running')
+        permits2, running2 = z3.Ints('permits2 running2')
+        inv = lambda p, r: z3.And(p >= 0, r >= 0, p + r == mx)     # noqa: E731
+        E.oblige('C10/lemma.semaphore_invariant_initially', z3.Implies(z3.And(mx >= 0, permits == mx, running == 0),
+                                                                       inv(permits, running)))
+        # `async with semaphore` entered only with a permit; the batch function is iterated only inside (obligation
+        # call.batch_function_runs_inside_the_semaphore); released exactly as often as acquired
+        E.oblige('C10/lemma.entering_preserves_the_bound',
+                 z3.Implies(z3.And(inv(permits, running), permits > 0, permits2 == permits - 1, running2 == running + 1),
+                            z3.And(inv(permits2, running2), running2 <= mx)))
+        E.oblige('C10/lemma.leaving_preserves_the_bound',
+                 z3.Implies(z3.And(inv(permits, running), running > 0, permits2 == permits + 1, running2 == running - 1),
+                            z3.And(inv(permits2, running2), running2 <= mx)))
+        E.oblige('C10/lemma.never_more_than_max_concurrent_batches_executions', z3.Implies(inv(permits, running), running <= mx))
+    E.run_paths(body)
+
+
+TASKS['batcher.lemmas'] = (t_lemmas, {'C10'})
